@@ -274,6 +274,31 @@ func ReplaySorter(i int, raw []byte) child.Result {
 			return child.Fail("sorter/outputs-differ/"+fc, map[string]interface{}{"position": j, "blocks": rows2([][]string{rows1[j]})})
 		}
 	}
+	// an abandoned sort (what the ingest does when saving a block fails: its deferred cancel): the consumer takes
+	// the first item, cancels, and closes the sorter - "temporary spill files are deleted when the sorter is closed"
+	s3, err := feed(&sc)
+	if err != nil {
+		return child.Fail("sorter/addrow-error/"+fc, map[string]interface{}{"error": err.Error()})
+	}
+	ctx, cancel := context.WithCancel(context.Background())
+	errCh3 := make(chan error, 8)
+	if i%2 == 0 {
+		ch := s3.SortedBlocks(ctx, remArg, errCh3)
+		<-ch
+		cancel()
+		for range ch {
+		}
+	} else {
+		ch := s3.SortedRows(ctx, remArg, errCh3)
+		<-ch
+		cancel()
+		for range ch {
+		}
+	}
+	s3.Close()
+	if left := spillFilesLeft(); len(left) > 0 {
+		return child.Fail("sorter/close/spill-files-left-after-cancel/"+fc, map[string]interface{}{"files": left})
+	}
 	if len(sc.In) == 0 && sc.Pad == 0 {
 		return child.Pass("-")
 	}
